@@ -44,9 +44,10 @@ def port_op(w, op):
     return list(op)
 
 
-def exec_ports(ops):
+def exec_ports(ops, on_tr=None):
     """Run portable operations on the real module from a cleared cache; returns the list of CRS variables
-    (None for dropped / failed ones) and, per op, the result."""
+    (None for dropped / failed ones) and, per op, the result (for constructions: the instance for the last
+    operation only, so that dropped instances really die).  `on_tr(k, f, a, b, xy)` is called for every transformer."""
     import gc
     import pickle
     from odc.geo import crs as M
@@ -55,7 +56,7 @@ def exec_ports(ops):
     M._crs_cache.clear()
     M._make_crs_transform.cache.clear()
     vars_, pys, res = [], [], []
-    for op in ops:
+    for pos, op in enumerate(ops):
         k = op[0]
         r = None
         try:
@@ -78,7 +79,8 @@ def exec_ports(ops):
                 else:
                     v = pickle.loads(pickle.dumps(vars_[arg]))
                 vars_.append(v)
-                r = v
+                r = v if pos == len(ops) - 1 else str(v)
+                del v
             elif k == "toepsg":
                 r = vars_[op[1]].to_epsg()
             elif k == "eq":
@@ -91,6 +93,8 @@ def exec_ports(ops):
                 gc.collect()
             elif k == "tr":
                 r = vars_[op[1]].transformer_to_crs(vars_[op[2]], always_xy=op[3])
+                if on_tr is not None:
+                    on_tr(pos, r, vars_[op[1]], vars_[op[2]], op[3])
         except (CRSError, IndexError, AttributeError, TypeError):
             r = "error"
         res.append(r)
@@ -128,6 +132,50 @@ def p_transformer(ops, i, j, xy):
         if repr(got) != repr(want):
             return False, f"({x},{y}) -> {got}, a fresh {str(a)[:30]}->{str(b)[:30]} transformer gives {want}"
     return True, "same output as a fresh transformer"
+
+
+def p_transformers_all(ops):
+    """every transformer handed out while running `ops` converts between exactly the two systems it was asked for"""
+    from pyproj import Transformer
+    from pyproj.crs import CRS as P
+    from vlib.c19crs import PTS
+    bad = []
+
+    def on_tr(k, f, a, b, xy):
+        if bad:
+            return
+        ref = Transformer.from_crs(P.from_user_input(a._crs.srs), P.from_user_input(b._crs.srs), always_xy=xy)
+        for (x, y) in PTS:
+            got, want = tuple(f(x, y)), tuple(ref.transform(x, y))
+            if repr(got) != repr(want):
+                bad.append(f"operation {k}: transformer {str(a)[:30]} -> {str(b)[:30]} (always_xy={xy}) maps ({x},{y}) to {got}, "
+                           f"a fresh transformer to {want}")
+                return
+
+    exec_ports(ops, on_tr)
+    return not bad, bad[0] if bad else "all transformers agree with fresh ones"
+
+
+def attack_histories(rng, n):
+    """histories aimed at id reuse: build a pair, request its transformer, drop everything, build other systems
+    (several spellings, so that a bounded cache would evict) and request transformers among them"""
+    from pyproj.crs import CRS as P
+    codes = [4326, 3857, 32633, 3577]
+    wkt = {c: P.from_epsg(c).to_wkt() for c in codes}
+    spell = lambda c, k: [["int", c], ["str", f"EPSG:{c}"], ["str", wkt[c]], ["pynew", f"EPSG:{c}"]][k]
+    out = []
+    for _ in range(n):
+        c = rng.sample(codes, 4)
+        ops = [["crs", spell(c[0], rng.randrange(2))], ["crs", spell(c[1], rng.randrange(2))],
+               ["tr", 0, 1, True], ["tr", 1, 0, True], ["dropcrs", 0], ["dropcrs", 1], ["gc"]]
+        m = rng.randint(3, 5)
+        for k in range(m):
+            ops.append(["crs", spell(rng.choice(c), rng.randrange(4))])
+        idx = list(range(2, 2 + m))
+        for _ in range(6):
+            ops.append(["tr", rng.choice(idx), rng.choice(idx), True])
+        out.append(ops)
+    return out
 
 
 def p_crs_relation(ops, vars_=None):
@@ -233,7 +281,7 @@ def pair_clause(a, b, clause):
     raise ValueError(clause)
 
 
-PREDICATES = {"crs-relation": p_crs_relation, "history": p_history, "transformer": p_transformer, "tiles-token": p_tiles_token, "gcp-pickle": p_gcp_pickle,
+PREDICATES = {"transformers-all": p_transformers_all, "crs-relation": p_crs_relation, "history": p_history, "transformer": p_transformer, "tiles-token": p_tiles_token, "gcp-pickle": p_gcp_pickle,
               "lossless": p_lossless, "family-pair": family_pair}
 
 
@@ -262,9 +310,9 @@ def gen_histories(w, tier, rng):
     pairs += [(a, b) for a in first[:4] for b in other] + [(b, a) for a in first[:4] for b in other]
     for a, b in pairs:
         hists.append([("crs", a), ("crs", b), ("eq", 0, 1), ("tr", 0, 1, True), ("toepsg", 1), ("eq", 0, 1), ("eq", 1, 0),
-                      ("crs", ("pickle", 1)), ("eq", 1, 2), ("tr", 1, 0, True), ("tr", 0, 1, True)])
+                      ("crs", ("pickle", 1)), ("eq", 1, 2), ("tr", 1, 0, True), ("tr", 0, 1, False), ("tr", 0, 1, True)])
     # random histories: <= 4 (quick) / 6 (thorough) constructions with interleaved del / gc / transformer requests
-    nrand, maxc = (260, 4) if tier == "quick" else (2500, 6)
+    nrand, maxc = (170, 4) if tier == "quick" else (2500, 6)
     for _ in range(nrand):
         h = []
         nv = npy = 0
@@ -369,6 +417,12 @@ def part_a(out, tier, scratch, w):
         if not ok:
             key = K_EQHASH if clause == "hash" else f"c19:crs-eq:{clause}"
             viol(key, f"CRS instances after a history: {detail}", {"predicate": "crs-relation", "args": [ports], "observed": detail})
+    for ops in attack_histories(core.rng("c19-attack"), 16 if tier == "quick" else 300):
+        ok, detail = p_transformers_all(ops)
+        out.count("predicate:transformers-after-drops")
+        out.case(("attack", ops), True)
+        if not ok:
+            viol("c19:transformer-pair", detail, {"predicate": "transformers-all", "args": [ops], "observed": detail})
     for n in w.codes:
         for h in ([], [port_op(w, ("crs", ("pynew", w.by_code[n]["upper"])))], [port_op(w, ("crs", ("str", w.by_code[n]["wkt"])))]):
             ok, detail = p_lossless(h, n)
